@@ -666,6 +666,34 @@ func (it *Interp) bytesEqTerm(xb, yb []*smt.Term) *smt.Term {
 		if it.M != nil && it.M.intBytes != nil {
 			sx, okx := it.M.intBytes[xb[i]]
 			sy, oky := it.M.intBytes[yb[i]]
+			// chunk against constant bytes: compare as Ints
+			if okx != oky {
+				src, other := sx, yb
+				mine := xb
+				if oky {
+					src, other, mine = sy, xb, yb
+				}
+				n := len(src.bytes)
+				if i+n <= len(xb) && allConst(other[i:i+n]) {
+					full := true
+					for k := range src.bytes {
+						if src.bytes[k] != mine[i+k] {
+							full = false
+							break
+						}
+					}
+					if full {
+						v := c.IntConst(new(big.Int).SetBytes(constBytes(other[i : i+n])))
+						if it.isReduced(src.x) {
+							r = c.And(r, it.scEq(src.x, v))
+						} else {
+							r = c.And(r, c.Eq(src.x, v))
+						}
+						i += n
+						continue
+					}
+				}
+			}
 			if okx && oky && len(sx.bytes) == len(sy.bytes) && i+len(sx.bytes) <= len(xb) {
 				full := true
 				for k := range sx.bytes {
